@@ -102,6 +102,9 @@ type AuthenStart struct {
 // Validate all fields on this type
 func (a *AuthenStart) Validate() error {
 	// validate
+	if err := fitsUint8(a.User.Len(), a.Port.Len(), a.RemAddr.Len(), a.Data.Len()); err != nil {
+		return err
+	}
 	if a.Type == AuthenTypeNotSet {
 		return fmt.Errorf("bad value for AuthenType; AuthenTypeNotSet not allowed for AuthenStart packets")
 	}
@@ -245,6 +248,9 @@ type AuthenContinue struct {
 // Validate all fields on this type
 func (a *AuthenContinue) Validate() error {
 	// validate
+	if err := fitsUint16(a.UserMessage.Len(), a.Data.Len()); err != nil {
+		return err
+	}
 	for _, t := range []Field{a.UserMessage, a.Data} {
 		if err := t.Validate(nil); err != nil {
 			return err
@@ -365,6 +371,9 @@ type AuthenReply struct {
 // Validate all fields on this type
 func (a *AuthenReply) Validate() error {
 	// validate
+	if err := fitsUint16(a.ServerMsg.Len(), a.Data.Len()); err != nil {
+		return err
+	}
 	for _, t := range []Field{a.Status} {
 		if err := t.Validate(nil); err != nil {
 			return err
